@@ -6,6 +6,7 @@ CONSTANTS
  MaxAttempts = 3
  MaxFaults = 3
  CanonOrder = TRUE
+ ErrCodes = {3}
  MaxDown = 1
  DevRetryOnTimeout = FALSE
  DevDropFailed = FALSE
